@@ -177,6 +177,7 @@ package main
 //@   ensures fits: 0 <= result.len && result.begin + result.len <= len(buf)
 //@   ensures progress: result.ttype != New_TokenType_EOF ==> result.len >= 1
 //@   ensures space: result.ttype == New_TokenType_SPACE ==> result.begin == pos
+//@   ensures C06 folds-blanks-and-comments: blank_at(buf, pos) || comment_at(buf, pos) ==> result.ttype == New_TokenType_SPACE
 //@   ensures eol: result.ttype == New_TokenType_EOL ==> result.len == 1 && result.begin == pos && buf[pos] == '\n'
 
 //@ func isNeighborLT
@@ -663,10 +664,11 @@ package main
 //@   note abstract: the dictionaries of a scope (pointer dereference, hand-written)
 
 //@ func recFacMatch
-//@   trusted
+//@   props C05
 //@   panics never
-//@   returns recmatch(fieldNames, rf)
-//@   note abstract: a pure function of its arguments (sorted field-name comparison); no dictionary enumeration inside
+//@   returns-def recmatch(fieldNames, rf)
+//@   ensures same-arity: result ==> len(fieldNames) == len(rf.Fields)
+//@   note recmatch NAMES the result of this pure function of its arguments (sorted field-name comparison; no dictionary enumeration, no global state); a match needs the same number of fields
 
 // record-literal resolution: the factory whose field names match.  CARVE-OUT (known finding F8): when two
 // record types of one scope have the same field names the result depends on Go's map order; the contract
@@ -969,3 +971,32 @@ package main
 //@   ensures text: result == "frt.NewTuple" + fmtverb("d", len(exprs)) + "(" + join_prefix(A, ", ", len(exprs)) + ")"
 //@   ensures args: forall k int :: 0 <= k && k < len(exprs) ==> A[k] == eGo(exprs[k])
 //@   at after call slice.Map#0: A = ret
+
+// C09: routing.  A match that returns without a default arm has been through exaustiveCheck (so it covers
+// every case); a default arm is accepted only where the next arm is inside the enclosing offside.
+//@ func isDefaultMR
+//@   trusted
+//@   panics may
+//@   returns is_default_mr(ps)
+//@   note abstract: "| _" follows (token look-ahead)
+
+//@ func parseUnionMatchRules
+//@   trusted
+//@   panics may
+//@ func parseDefaultMatchRule
+//@   trusted
+//@   panics may
+
+//@ func parseURules
+//@   props C09
+//@   modifies maps
+//@   ghost P ParseState          -- the state after the union arms
+//@   ghost US []UnionMatchRule   -- the arms
+//@   ghost TT FType              -- the type of the matched expression
+//@   panics may
+//@   ensures default-only-inside-offside: is(UnionMatchRules_UCaseWD, result.E1) ==> len(P.offsideCol) > 0 && P.tkz.col >= P.offsideCol[len(P.offsideCol) - 1] && is_default_mr(P)
+//@   ensures no-default-means-checked: is(UnionMatchRules_UCaseOnly, result.E1) && is(FType_FUnion, TT) ==> has_uniinfo(FType_FUnion_Value(TT)) && !(exists i int :: 0 <= i && i < len(uniinfo(FType_FUnion_Value(TT)).Cases) && (forall j int :: 0 <= j && j < len(US) ==> US[j].UnionPattern.CaseId != uniinfo(FType_FUnion_Value(TT)).Cases[i].Name))
+//@   ensures no-default-keeps-arms: is(UnionMatchRules_UCaseOnly, result.E1) ==> UnionMatchRules_UCaseOnly_Value(result.E1) == US
+//@   at after call frt.Destr2#0: P = ret
+//@   at after call ExprToType#0: TT = ret
+//@   at before call exaustiveCheck#0: US = us
